@@ -1590,20 +1590,83 @@ def probing_traces(rng, prefix, n, length, profile):
     return out
 
 
+def kick_announce_oracle(t, steps):
+    """every removal by KICK is announced once to every member of the channel, the removed users included"""
+    fails = []
+    cm = ConnMap(t.cfg.name)
+    prev = None
+    for s in sorted(steps, key=lambda s: s["k"]):
+        ev = t.events[s["k"]]
+        d = s.get("dump")
+        if ev[0] == "L" and isinstance(ev[2], str) and prev is not None and d is not None and not s.get("panics"):
+            m = re.match(r"^KICK ([#&][^ ,:]*) (\S+)", ev[2])
+            actor = cm.nick.get(ev[1])
+            if m and actor in prev["users"] and m.group(1) in prev["channels"]:
+                chn = m.group(1)
+                before = set(prev["channels"][chn]["users"])
+                after = set(d["channels"][chn]["users"]) if chn in d["channels"] else set()
+                removed = before - after
+                if removed and actor in before:
+                    for member in before:
+                        c = cm.conn_of(member)
+                        got = (s.get("out") or {}).get(str(c), []) if c is not None else []
+                        for v in removed:
+                            if member in removed and member != v:
+                                continue   # somebody removed by the same command needs (and gets) only its own KICK
+                            n = sum(1 for l in got if re.match(r"^:%s!\S+ KICK %s %s( |$)" % (re.escape(actor), re.escape(chn), re.escape(v)), l))
+                            if n != 1:
+                                fails.append(("KICK of %s from %s by %s: member %s saw the announcement %d times" % (v, chn, actor, member, n), {"step": s["k"]}))
+        cm.update(s)
+        if d is not None:
+            prev = d
+    return fails
+
+
+def c04_kick_traces(res):
+    """KICK lists that empty the channel, include the kicker, repeat names - on ordinary and preconfigured channels"""
+    traces = []
+    k = 0
+    for chan, pre in (("#room", False), ("#pre", True)):
+        for victims in ("carol,bob", "bob", "carol", "carol,bob,carol", "bob,carol,erin", "erin,carol,bob"):
+            for founder_stays in (False, True):
+                k += 1
+                cfg = Config(channels=[dict(name="#pre", topic=None, flags="")] if pre else [])
+                t = Trace("C04-kick-%d" % k, cfg)
+                for c, nk in enumerate(["alice", "bob", "carol", "erin", "dave"]):
+                    t.register(c, nk)
+                for c in range(4):
+                    t.line(c, "JOIN " + chan)
+                if pre:
+                    t.line(4, "OPER admin operpass")
+                t.line(0, "MODE %s +o bob" % chan)
+                if not founder_stays:
+                    t.line(0, "PART " + chan)
+                t.line(3, "PART %s :bye" % chan) if "erin" not in victims else None
+                t.line(1, "KICK %s %s :out" % (chan, victims))
+                t.line(4, "NAMES " + chan)
+                t.line(2, "WHOIS bob")
+                t.line(1, "JOIN " + chan)
+                t.line(1, "NAMES " + chan)
+                t.meta = {"victims": victims, "preconfigured": pre, "founder_stays": founder_stays}
+                traces.append(t)
+    return traces
+
+
 def check_C04(res):
     n = 150 if res.tier == "quick" else 2500
     prof = {"weights": dict(JOIN=22, PART=10, KICK=8, NICK=8, QUIT=3, MODE=6, UMODE=4, NAMES=3, WHO=3, WHOIS=3, PRIVMSG=1, KILL=1, OPER=1, BAD=0.5, MISC=0.1),
             "p_close": 0.07, "max_conns": 6, "initial_conns": 3}
     rng = random.Random(res.seed + 4)
-    probing = probing_traces(rng, "C04", n, 60, prof)
+    probing = probing_traces(rng, "C04", n, 60, prof) + c04_kick_traces(res)
     def orc(t, steps):
-        return views_oracle(t, steps) + inv_oracle(t, steps) + join_oracle(t, steps)
+        return views_oracle(t, steps) + inv_oracle(t, steps) + join_oracle(t, steps) + kick_announce_oracle(t, steps)
     r = l2_campaign(res, "C04", 0, 0, prof, traces=probing, oracle=orc)
     res.coverage.update({
         "evaluations": r["steps"], "distinct_nontrivial": r["summary"]["reply_codes"].get("353", 0) + r["summary"]["reply_codes"].get("352", 0) + r["summary"]["reply_codes"].get("319", 0),
         "rule": "%d seeded random histories of joins (single and comma lists), parts, kicks, nick changes, quits, kills and abrupt closes over 5 channels and up to 6 users; after every membership-changing "
                 "command two randomly chosen users (members and outsiders) ask NAMES/WHO/WHOIS; oracle on the implementation after EVERY step: user.channels and channel.users are one relation, rank lists "
-                "equal the member flags; each NAMES/WHO/WHOIS answer equals the membership relation restricted to what that viewer may see; JOIN/PART/NICK announcements reach every member exactly once; "
+                "equal the member flags; each NAMES/WHO/WHOIS answer equals the membership relation restricted to what that viewer may see; JOIN/PART/NICK/KICK announcements reach every member exactly once (the departing users included; 24 extra "
+                "KICK histories whose victim list empties the channel, includes the kicker or repeats names, on ordinary and preconfigured channels); "
                 "distinct_nontrivial = number of 353/352/319 view lines checked" % n,
         "traces_validated_against_impl": r["traces"],
         "samples": [probing[0].describe()["events"][8:24]],
@@ -1893,6 +1956,11 @@ def c06_sweep(res):
             t.line(0, "JOIN #solo,#shared,#pre")
             t.line(1, "JOIN #shared")
             t.line(0, "MODE #shared +o friend")
+            # the leaver holds several ranks at once (founder and operator as creator, plus half-operator and voice)
+            t.line(0, "MODE #shared +hv victim victim")
+            t.line(0, "MODE #pre +hv victim victim")
+            if variant == 1:
+                t.line(0, "MODE #shared +a victim")
             t.line(0, "MODE victim +iw")
             t.line(1, "MODE friend +w")
             t.line(0, "AWAY :brb")
